@@ -82,6 +82,11 @@ EXPLAIN_CONTENT = {
     'O5-content': ('an ENTRY call takes its handler from a slot of the path buffer that is not known to hold an ancestor of the current target (it is above the content '
                    'frontier: the slot still holds a state of an earlier walk, the source state, or a scratch value) - the chart would enter a state that is not on the '
                    'path to the target'),
+    'O6-exit': ('an EXIT call is sent to a state that is not known to be the next one on the active chain (current state, its parent, ...): with NX exits made so far the '
+                'call must go to the ancestor of the current state at depth NX - otherwise a state is exited twice, skipped, or a state that is not active is exited'),
+    'O6-lca': ('where the entry-path routine returns, the exits made and the entry index do not meet at one tested common state: it must have compared a state of the active '
+               'chain at depth m with an ancestor of the target at depth q (identity/equality test passed on this path), have exited exactly the m states below it, and '
+               'return q-1 so that entry starts just below it (for source == target the pair of parents is the common state: exit and re-enter the source)'),
 }
 
 
@@ -90,7 +95,7 @@ def content_analysis(model, entry_name, cursor_at_entry):
     key = (id(model), entry_name)
     if key not in _content_cache:
         ba, res, callees = buffer_analysis(model, entry_name)
-        ca = ContentAnalysis(ba.entry, callees, cursor_is_target_at_entry=cursor_at_entry)
+        ca = ContentAnalysis(ba.entry, callees, cursor_is_target_at_entry=cursor_at_entry, track_source=(entry_name == 'dispatch'))
         _content_cache[key] = (ca, ca.run())
     return _content_cache[key]
 
@@ -98,12 +103,14 @@ def content_analysis(model, entry_name, cursor_at_entry):
 def record_content_obligations(run, model, entry_name, cursor_at_entry=False, rule='HSM-CONTENT'):
     """slot k of the path buffer holds the k-th ancestor of the target whenever it is used for entry (ghost frontier K, ghost depths d)"""
     ca, res = content_analysis(model, entry_name, cursor_at_entry)
-    counts = {'O4-content': 0, 'O5-content': 0}
+    counts = {'O4-content': 0, 'O5-content': 0, 'O6-exit': 0, 'O6-lca': 0}
     for o in res:
         if o['kind'] not in counts:
             continue
         f = o['func']
         ok = o['verdict'] == 'OK'
+        if o['verdict'] == 'UNRESOLVED':
+            raise AnalysisError('%s: %s (%s)' % (f.qualname, o['state'], norm(o['node'])))
         counts[o['kind']] += 1
         run.inst(rule + '.' + o['kind'], f, occurrence_key(o['node'], f), ok,
                  '' if ok else '%s: %s; abstract state: %s' % (o['verdict'], EXPLAIN_CONTENT[o['kind']], o['state'][:700]), node=o['node'], obligation=True)
